@@ -203,10 +203,17 @@ def object_case(j, e):
              "Twist2": (3,), "Twist3": (6,)}
     call = e["call"]
     cls, other, form = call["cls"], call["other"], call["form"]
+    nval = call.get("len", 1)
     o = mk[other]()
+    for _ in range(1, nval):
+        try:
+            o.append(mk[other]())
+        except Exception:  # noqa: BLE001  (Plucker etc.: single-valued only)
+            j.skip("multi-valued argument object cannot be built for this class")
+            return
     arg = o if form == "bare" else [o]
-    cid = (cls, "from-object", other, form)
-    feat = "%s;%s" % (form, other)
+    cid = (cls, "from-object", other, form, nval)
+    feat = "%s;%s;len=%d" % (form, other, nval)
     try:
         x = C[cls](arg)
     except Exception:  # noqa: BLE001
